@@ -2,7 +2,7 @@
     stun_hash_creds) and stun/stun5389.c (fingerprint).  HMAC-SHA1, MD5 and CRC-32 are the Gallina
     specifications of Crypto/.  No proofs in this file. *)
 From Coq Require Import ZArith List Bool.
-From Nice Require Import Base.Bytes Crypto.Sha1 Crypto.Md5 Crypto.Crc32 Stun.StunModel.
+From Nice Require Import Base.Bytes Crypto.Sha1 Crypto.Md5 Crypto.Crc32 Stun.StunModel Gen.Utf8Skip.
 Import ListNotations.
 Local Open Scope Z_scope.
 Local Open Scope bool_scope.
@@ -288,10 +288,20 @@ Definition finish (a : agent) (buf : bytes) (ms : mstate) (key_arg : option byte
 
 (** init_request / indication / response / error.  [id] is the transaction id the implementation drew. *)
 Definition PACKAGE_STRING : bytes := [108; 105; 98; 110; 105; 99; 101].
+(** stun_message_append_software: at most 128 characters, whole UTF-8 sequences as counted by utf8_skip_data (regenerated from stun/stun5389.c);
+    the BYTE count [ptr - software] is appended.  [s] is the string without its terminator; a final sequence announced longer than what is left
+    of the string (the C then steps over the terminator) is outside the model: [firstn] stops at the end of [s]. *)
+Fixpoint software_len (fuel : nat) (s : bytes) : nat :=
+  match fuel, s with
+  | O, _ => O
+  | _, [] => O
+  | S f, x :: _ => let k := Nat.max 1 (nth (Z.to_nat x) utf8_skip_data 1%nat) in (k + software_len f (skipn k s))%nat
+  end.
+Definition software_cut (s : bytes) : bytes := firstn (software_len SOFTWARE_MAX_CHARS s) s.
 Definition add_software (a : agent) (buf : bytes) : res bytes :=
   let c := a_cfg a in
   if is5389 c && (f_add_software c || match a_software a with Some _ => true | None => false end) then
-    r <- append_bytes c buf A_SOFTWARE (match a_software a with Some s => s | None => PACKAGE_STRING end) ;;
+    r <- append_bytes c buf A_SOFTWARE (software_cut (match a_software a with Some s => s | None => PACKAGE_STRING end)) ;;
     Ok (match r with FOk b => b | _ => buf end)
   else Ok buf.
 
